@@ -45,7 +45,7 @@ STRUCT_ELEMS = ["@f:1| 0 9 Ȧ ; @f;", "@g:a| ←a Ṙ ; @g;", "@h:1| : J ; @h;",
 
 # well-typed applications of list-transforming elements (the top of the stack is the list): used by the "recipes"
 # pool, which alternates them with sharing ops and often applies the same recipe twice (multi-step histories)
-RECIPES = ["0 9 Ȧ", "1 7 Ȧ", "⟨0|1⟩ 5 Ȧ", "0 λ›; ¨M", "⟨0|1⟩ λd; ¨M", "1 8 Ṁ", "0 9 Ṁ", "9 J", "9 p", "⟨8|9⟩ J", "Ṙ", "s", "U", "Ḣ", "Ṫ",
+RECIPES = ["Þr", "ÞR", "Ṫ Þr", "0 9 Ȧ", "1 7 Ȧ", "⟨0|1⟩ 5 Ȧ", "0 λ›; ¨M", "⟨0|1⟩ λd; ¨M", "1 8 Ṁ", "0 9 Ṁ", "9 J", "9 p", "⟨8|9⟩ J", "Ṙ", "s", "U", "Ḣ", "Ṫ",
            "ḣ", "ṫ", "f", "1 Ǔ", "1 ǔ", "2 ẇ", "2 Ẏ", "1 ȯ", "∩", "›", "d", "N", "1 +", "¦", "¯", "K", "ė", "z", ": Z", ": Y",
            "2 ẋ", "÷", "y", "0 i", "1 ⟇", "9 o", "ÞḊ", "Þf", "Ġ", "⇧", "⇩", "ÞU", "ṗ", "2 l", "Ċ", "∑", "G", "g", "h", "t", "L",
            "m", "øṁ", "Þ…" if False else "L", "λ›; M", "λ₂; F", "µN;", "ƒ+", "ɖ+", "v›", "Ḃ", "W", "ÞD" if False else "w"]
@@ -138,7 +138,7 @@ class C10(core.Check):
         if shape == "mixed":
             val = [self.gen_value(rw, 1) for _ in range(rw.randint(1, 5))]
         elif shape == "flat":
-            val = [rw.randint(0, 9) for _ in range(rw.randint(1, 6))]
+            val = [rw.randint(0, 9) for _ in range(rw.randint(0, 6))]  # the empty list is a value too
         elif shape == "matrix":
             c = rw.randint(1, 4)
             val = [[rw.randint(0, 9) for _ in range(c)] for _ in range(rw.randint(1, 4))]
@@ -488,7 +488,7 @@ class C10(core.Check):
                                     old = ro.cls
                                     ro.cls = rs_.cls
                                     classes.pop(old, None)
-                if expect_top is not None and ('"?"' in core.jdump(expect_top) or '["f",' in core.jdump(expect_top)):
+                if expect_top is not None and any(m_ in core.jdump(expect_top) for m_ in ('"?"', '["f",', '["sym",')):
                     expect_top = None  # something that is not a Vyxal value (None, a Python object) is on the stack
                 if expect_top is not None and w.stack and isinstance(w.stack[-1], (list, LL)):
                     rt = by_id.get(id(w.stack[-1]))
